@@ -379,7 +379,7 @@ impl<R: Read, TSpec> TagIterator<R, TSpec>
             if let Some(data) = self.read_tag_data(size)? {
                 data
             } else {
-                return Err(TagIteratorError::UnexpectedEOF { tag_start, tag_id: Some(tag_id), tag_size: Some(size), partial_data: Some(self.buffer[self.internal_buffer_position..].to_vec()) });
+                return Err(TagIteratorError::UnexpectedEOF { tag_start, tag_id: Some(tag_id), tag_size: Some(size), partial_data: Some(self.buffer[self.internal_buffer_position..self.buffered_byte_length].to_vec()) });
             }
         } else {
             return Err(TagIteratorError::CorruptedFileData(CorruptedFileError::InvalidTagData{ tag_id, position: tag_start }));
